@@ -26,6 +26,11 @@ pub assume_specification<T: Into<VCell> + Clone> [Heap::put] (h: &mut Heap, v: T
         &&& forall|c: VCell| #[trigger] heap_live(*old(h), c) ==> heap_live(*final(h), c)
     });
 pub assume_specification<T: Into<VCell> + Clone> [Heap::maybe_put] (h: &mut Heap, v: T) -> (r: VCell);
+/// Vm::pop (run.rs): pops one cell and reads it through the heap (a by-value copy of what the cell designates, not the cell)
+pub assume_specification [Vm::pop] (vm: &mut Vm) -> (r: Result<VCell, Error>)
+    requires old(vm).stack_spec().wf()
+    ensures old(vm).stack_spec().sp_spec() > 0 ==> (r matches Ok(c) && c == heap_deref(old(vm).heap_spec(), arg(*old(vm), 0)) && popped(*old(vm), *final(vm), 1)),
+            r is Err ==> final(vm).stack_spec().wf();
 /// rendering a datum / a number for an error message cannot fail
 impl vstd::std_specs::fmt::DisplaySpecImpl for Cell { open spec fn fmt_req(&self, f: &core::fmt::Formatter<'_>) -> bool { true } }
 impl vstd::std_specs::fmt::DisplaySpecImpl for Number { open spec fn fmt_req(&self, f: &core::fmt::Formatter<'_>) -> bool { true } }
